@@ -366,6 +366,12 @@ def bld_families():
                       Field([(mid + 2, top - mid - 2)], 'u' if (top - mid - 2) not in NATIVE else 'n'), Field([(top, 3)], 'u')]
             S(n, fs, dflt, "WIDEMASK")
             S(n, list(reversed([Field(f.ranges, f.kind) for f in fs])), dflt, "WIDEMASK")
+    # long chains: 9..32 writable fields
+    for n, w in ((9, 1), (16, 1), (32, 1), (64, 4), (128, 8), (100, 10)):
+        k = n // w
+        for dflt in (None, 0):
+            S(n, [Field([(i * w, w)], 'u' if w not in NATIVE else 'n') for i in range(k)], dflt, "LONGCHAIN")
+            S(n, [Field([(i * w, w)], 'u' if w not in NATIVE else 'n', access=('rw' if i % 3 else 'r')) for i in range(k)], dflt, "LONGCHAIN")
     return out
 
 
